@@ -6,7 +6,8 @@ Specification of the CLASSIC notation (`λx.λy.x y`) — property C09, Classic 
   independent of the deque / counters used by the code.
 * `cshape`, `shape`: tokens with names / indices forgotten.
 * `WfName`, `NameEnd`, `Renders`, `ClsOk`, `EndsTop`: what it means for a string to be a rendering
-  of a list of named tokens (glyph choice and whitespace are free).
+  of a list of named tokens (glyph choice and whitespace are free; identifiers are a letter followed
+  by alphanumeric characters).
 * `tokenStage`: the token-level stage of `parse`, shared by the two notations.
 * `NTerm`, `toDB`, `toDeBruijn`: named terms and the standard named → De Bruijn translation.
 * `printN`, `printD`: token printers with the crate's parenthesisation discipline;
@@ -90,24 +91,33 @@ def shape : Token → Token
 
 /-! ## Renderings of named tokens as strings -/
 
-/-- A name usable both as a binder and as a variable: non-empty, the first code point alphabetic and
-not a lambda glyph, the others alphanumeric, none of them whitespace, a parenthesis, the dot or a
-backslash (the ASCII lambda glyph ends a variable name). -/
+/-- A name (an identifier, usable both as a binder and as a variable): a first code point that is
+alphabetic and not a lambda glyph, followed by alphanumeric code points; no code point is the dot
+(a binder name ends at the dot).
+
+Nothing else has to be said per character: inside a name the lexer only asks "alphanumeric?", and
+that an alphanumeric character (in particular a letter) is not whitespace, a parenthesis or a
+backslash is a fact about the classification (`ClsOk`).  (For Rust's classification the dot is not
+alphanumeric either, so there the last clause is redundant too: `wfName_of_unicode`.) -/
 def WfName (cls : CharCls) (n : Name) : Prop :=
   (∃ c cs, n = c :: cs ∧ cls.isAlpha c = true ∧ isLam c = false ∧ ∀ d ∈ cs, cls.isAlnum d = true) ∧
-  ∀ d ∈ n, cls.isWs d = false ∧ d ≠ cLparen ∧ d ≠ cRparen ∧ d ≠ cDot ∧ d ≠ cBackslash
+  ∀ d ∈ n, d ≠ cDot
 
-/-- what may follow a variable name: the end of the input, whitespace, a parenthesis or a backslash
-(the ASCII lambda glyph, which then starts a binder: `x\y.y` is `x`, `\y.`, `y`) -/
+/-- what may follow a variable name: the end of the input, or a character that is NOT alphanumeric.
+That character is not part of the name; it is lexed at top level like any other character (so it
+must be whitespace, a parenthesis, a glyph — `x\y.y` is `x`, `\y.`, `y` — …: this is what `Renders`
+requires of the remaining string). -/
 def NameEnd (cls : CharCls) : List Nat → Prop
   | [] => True
-  | c :: _ => cls.isWs c = true ∨ c = cLparen ∨ c = cRparen ∨ c = cBackslash
+  | c :: _ => cls.isAlnum c = false
 
 /-- `Renders cls cts s`: the string `s` is a rendering of the named tokens `cts`.
 Arbitrary whitespace may surround tokens; a binder is `glyph ++ name ++ "."` with either glyph;
-a variable name must be followed by whitespace, a parenthesis, a backslash (necessarily the glyph of
-a binder, since whitespace is not a glyph and no other token starts with a backslash) or the end of
-the input.  The other glyph `λ` is a letter and would continue the name, so it needs a separator. -/
+a variable name is followed by the end of the input or by a character that is not alphanumeric
+(`NameEnd`), with which the rendering of the remaining tokens starts: whitespace, a parenthesis or
+the backslash glyph of a binder (under `ClsOk` none of them is alphanumeric, and a letter, which
+would start another name, is).  The other glyph `λ` is a letter for Rust and would continue the
+name, so it needs a separator. -/
 inductive Renders (cls : CharCls) : List CToken → List Nat → Prop
   | nil : Renders cls [] []
   | ws {c cts s} : cls.isWs c = true → Renders cls cts s → Renders cls cts (c :: s)
@@ -118,15 +128,23 @@ inductive Renders (cls : CharCls) : List CToken → List Nat → Prop
   | name {n cts s} : WfName cls n → NameEnd cls s → Renders cls cts s →
       Renders cls (CName n :: cts) (n ++ s)
 
-/-- the only facts about the character classification that the lexer theorems need:
-the two lambda glyphs and the parentheses are not whitespace -/
+/-- the only facts about the character classification that the lexer theorems need
+(all of them checked against Rust's `char` methods for every code point by the harness):
+* whitespace is neither a lambda glyph nor a parenthesis;
+* a letter is alphanumeric;
+* the delimiters — whitespace, the parentheses, the backslash — are not alphanumeric, i.e. they end
+  an identifier.  (`λ` IS alphanumeric; the dot matters only inside binders, see `WfName`.) -/
 def ClsOk (cls : CharCls) : Prop :=
-  ∀ c, cls.isWs c = true → isLam c = false ∧ c ≠ cLparen ∧ c ≠ cRparen
+  (∀ c, cls.isWs c = true → isLam c = false ∧ c ≠ cLparen ∧ c ≠ cRparen) ∧
+  (∀ c, cls.isAlpha c = true → cls.isAlnum c = true) ∧
+  (∀ c, cls.isAlnum c = true →
+    cls.isWs c = false ∧ c ≠ cLparen ∧ c ≠ cRparen ∧ c ≠ cBackslash)
 
 /-- the last character of `s` (if any) is whitespace, a parenthesis or a dot: after a rendering
-with this property the lexer is back at top level (not inside a name).  (The backslash, although it
-ends a name, is no alternative here: after it the lexer is inside a binder, and no rendering ends
-with a backslash since a binder ends with its dot.) -/
+with this property the lexer is back at top level (not inside a name: under `ClsOk` a well-formed
+name ends with an alphanumeric character other than the dot, which is none of these).  (The
+backslash, although it ends a name, is no alternative here: after it the lexer is inside a binder,
+and no rendering ends with a backslash since a binder ends with its dot.) -/
 def EndsTop (cls : CharCls) (s : List Nat) : Prop :=
   ∀ c, s.getLast? = some c → cls.isWs c = true ∨ c = cLparen ∨ c = cRparen ∨ c = cDot
 
